@@ -736,6 +736,10 @@ def check(ck):
     nj = FA(ck, AH + "._normalized_json")
     EP, DP, NP = enc.fi.params[0], dec.fi.params[0], nj.fi.params[0]
     enc_types = _value_types(enc, EP)
+    # an encoder in which no test on the class of its argument is visible is written in a way this rule cannot read (the
+    # argument is classified elsewhere, a table of handlers keyed by something computed): no verdict, rather than the
+    # verdict that it accepts nothing
+    ck.need(len(enc_types - {"None"}) >= 2, "%s._encode: how the argument's class selects the encoding is not recognised" % AH)
     dec_types = _value_types(dec, DP)
     nj_types = _value_types(nj, NP)
     # the canonical writer may also be the library's own: json.dumps(obj, sort_keys=True, separators=(',', ':'))
